@@ -446,14 +446,16 @@ def spec_tags(spec):
     return tags
 
 
-def simulate(spec):
-    """-> (run, None) or (None, ('fail'|'inconclusive', key, text))"""
+def simulate(spec, prelude=None):
+    """-> (run, None) or (None, ('fail'|'inconclusive', key, text)); prelude(wn) gives the built model a past"""
     from .. import spec as S
     from ..outcome import exc_bucket
     try:
         wn = S.build_wn(spec)
     except Exception as e:
         return None, ('fail', exc_bucket(e, 'build'), 'building the model raised %r' % (e,))
+    if prelude is not None:
+        prelude(wn)
     run = S.run_wntr_history(wn, spec.get('history'), hw_approx=spec['opts']['hw_approx'])
     if run.exception is not None:
         return None, ('inconclusive', 'run_sim raised %s' % type(run.exception).__name__, repr(run.exception))
